@@ -1,0 +1,48 @@
+//go:build verif
+
+package cisco
+
+import (
+	"strings"
+
+	"github.com/hknutzen/Netspoc-Approve/go/pkg/deviceconf"
+)
+
+// VerifACLDump shows, for a configuration returned by ParseConfig / MergeSpoc,
+// the lines of every ACL (ASA "access-list", IOS "ip access-list extended")
+// under the name it is stored with, and which ACL every access-group command
+// (ASA: toplevel, IOS: subcommand of interface) references.
+// Only used by the verification harness (property C18).
+func VerifACLDump(c deviceconf.Config) (acls map[string][]string, bindings [][2]string) {
+	cf := c.(*Config)
+	acls = make(map[string][]string)
+	for name, l := range cf.lookup["access-list"] {
+		lines := []string{}
+		for _, c := range l {
+			lines = append(lines, c.orig)
+		}
+		acls[name] = lines
+	}
+	for name, l := range cf.lookup["ip access-list extended"] {
+		lines := []string{}
+		if len(l) > 0 {
+			for _, sc := range l[0].sub {
+				lines = append(lines, sc.orig)
+			}
+		}
+		acls[name] = lines
+	}
+	for _, c := range cf.lookup["access-group"][""] {
+		if len(c.ref) > 0 {
+			bindings = append(bindings, [2]string{c.orig, c.ref[0]})
+		}
+	}
+	for _, c := range cf.lookup["interface"][""] {
+		for _, sc := range c.sub {
+			if len(sc.ref) > 0 && strings.HasPrefix(sc.parsed, "ip access-group ") {
+				bindings = append(bindings, [2]string{c.orig + " / " + sc.orig, sc.ref[0]})
+			}
+		}
+	}
+	return acls, bindings
+}
